@@ -120,8 +120,10 @@ def coq_gate(prop_file, clean=False):
                 shutil.copy(f, os.path.join(bdir, os.path.relpath(f, COQ)))
             lk.close()
             lk = None
-        # (the private thorough build compiles the dependency cone of the property file only)
-        target = ("props/%s.vo" % prop_file[:-2]) if bdir != COQ else ""
+        # only the dependency cone of the property file is built (quick tier: incrementally, in the shared build directory that
+        # `./check setup` filled; thorough tier: from clean in the private copy): a source-derived obligation of ANOTHER property
+        # that no longer checks (e.g. the hash layouts tied in C05) must not fail this property's gate
+        target = "props/%s.vo" % prop_file[:-2]
         rc, out = run("coq_makefile -f _CoqProject -o Makefile >/dev/null && timeout 3000 make -j16 %s" % target, cwd=bdir, timeout=3300)
         if rc != 0:
             tail = "\n".join(out.strip().split("\n")[-12:])
@@ -168,7 +170,7 @@ def coq_gate(prop_file, clean=False):
     return dict(ok=not problems, problems=problems, theorems=theorems, assumptions=assumptions,
                 wall_s=time.time() - t0, coqchk=(chk_out[-700:] if chk_out else None), src_consts=src_consts,
                 src_codecs=src_codecs, src_order=src_order, src_fns=src_fns, src_hash=src_hash,
-                checker_cmd="cd /verif/coq && coq_makefile -f _CoqProject -o Makefile && make -j16 && coqc -Q . HC props/%s" % prop_file)
+                checker_cmd="cd /verif/coq && coq_makefile -f _CoqProject -o Makefile && make -j16 props/%svo && coqc -Q . HC props/%s" % (prop_file[:-1], prop_file))
 
 
 def coqchk(prop_file, bdir=None):
